@@ -296,6 +296,39 @@ func VerifC13_QueryStreamFailure() {
 	rt.Reach("streamfailure-end")
 }
 
+// a second sub / qsub with the operation ID of a subscription that is still
+// active: the ID keeps standing for one subscription - after its cancel there
+// is one done, and nothing is announced under that ID any more
+func VerifC13_DuplicateOperationID() {
+	rt.SchedYieldOnly(true)
+	rt.CodecFaults(false)
+	api := c13Setup()
+	api.Handle(c13Msg("s5", "sub", "query tdb:s/"))
+	rt.Quiesce(time.Second)
+	second := []string{"sub", "qsub"}[rt.Choice("second", 2)]
+	api.Handle(c13Msg("s5", second, "query tdb:"))
+	rt.Quiesce(time.Second)
+	api.Handle(append(c13Msg("w1", "create", "tdb:s/new|"), 'J', '{', '}'))
+	rt.Quiesce(time.Second)
+	api.Handle([]byte("s5|cancel"))
+	rt.Quiesce(time.Second)
+	atCancel := len(c13Replies)
+	dones := 0
+	for _, r := range c13Replies {
+		if bytes.HasPrefix(r, []byte("s5|")) && c13Kind(r) == "done" {
+			dones++
+		}
+	}
+	rt.Assert(dones == 1, "dupid/one-done-after-the-cancel")
+	// a further change is not announced under the cancelled ID
+	api.Handle(append(c13Msg("w2", "create", "tdb:s/later|"), 'J', '{', '}'))
+	rt.Quiesce(time.Second)
+	for _, r := range c13Replies[atCancel:] {
+		rt.Assert(!bytes.HasPrefix(r, []byte("s5|")), "dupid/nothing-announced-after-the-cancel")
+	}
+	rt.Reach("dupid-end")
+}
+
 func VerifC13_Sub() {
 	rt.SchedYieldOnly(true)
 	api := c13Setup()
